@@ -289,6 +289,10 @@ func typed(leaf refmodel.Type, cell []byte) fakepg.Value {
 	return append([]byte{}, cell...)
 }
 
+// Typed exposes the reference typing of one ABI cell (C11 uses it to tell a
+// column filled from another topic apart from a mistyped value).
+func Typed(leaf refmodel.Type, cell []byte) fakepg.Value { return typed(leaf, cell) }
+
 // Ctx of one projected item.
 type itemCtx struct {
 	src     string
@@ -466,6 +470,13 @@ func acceptOne(f Filter, v fakepg.Value, look RefLookup) (bool, bool) {
 		return false, false
 	}
 	return false, false
+}
+
+// AcceptOne exposes the reference predicate of one filter (C12 uses the
+// per-filter results to attribute a wrong aggregate to a filter or to the
+// aggregation). counted=false: the filter contributes nothing.
+func AcceptOne(f Filter, v fakepg.Value, look RefLookup) (res, counted bool) {
+	return acceptOne(f, v, look)
 }
 
 func unhex(s string) []byte {
